@@ -325,6 +325,16 @@ def run(ctx, prog):
             ctx.inst('C13.R6', 'persistence::Manifest', 'field %s is required by the decoder' % fld, ok6,
                      ('missing_field("%s") raised when the key is absent' % fld) if ok6 else
                      'the derived decoder does not raise missing_field("%s"): an absent or damaged key is replaced by a default (fields with an error exit: %s)' % (fld, sorted(req)))
+    # the optional fields (latest_snapshot, latest_snapshot_wal_seq) read as None when their key is absent, so a damaged key NAME must not be skipped: the field-name
+    # visitor of the derived decoder raises unknown_field (#[serde(deny_unknown_fields)]) for a key that is none of the five
+    fv = [b for b in prog.bodies.values() if 'persistence::Manifest>::deserialize::__FieldVisitor' in b.id and re.search(r'::visit_(str|bytes)$', b.id)]
+    if not fv:
+        ctx.missing('C13.R6', 'derived field-name visitor (visit_str / visit_bytes) of persistence::Manifest')
+    for b in sorted(fv, key=lambda x: x.id):
+        uk = [c for c in b.calls if c.callee and c.callee.endswith('Error::unknown_field')]
+        ctx.inst('C13.R6', 'persistence::Manifest', 'an unknown key is a decode error (%s)' % b.id.rsplit('::', 1)[-1], bool(uk),
+                 'unknown_field raised: %d call(s)' % len(uk) if uk else 'the decoder skips unknown keys: a flipped bit in "latest_snapshot" makes the field read as None and strict recovery starts '
+                 'without the snapshot, reporting success')
     mf = [b for b in prog.bodies.values() if b.short.endswith('persistence::Manifest::load')]
     for b in mf:
         de = [c for c in b.calls if c.callee and re.search(r'serde_json::(de::)?from_(slice|str|reader)$', c.callee)]
